@@ -7,7 +7,9 @@
 EXTENDS Assignment, Json
 CONSTANTS MaxSteps, DEV_StaticRegistersCenter,
           DEV_ReassignKeepsOld,      \* a repeated assignment only adds registry entries (stale ones of a moved obstacle stay)
-          DEV_RemoveNeedsLanelets    \* remove_obstacle looks up every recorded lanelet and fails if one is gone
+          DEV_RemoveNeedsLanelets,   \* remove_obstacle looks up every recorded lanelet and fails if one is gone
+          DEV_ForgetsCentre          \* re-assignment / removal drop only the registrations the recorded SHAPE relation names
+                                     \* (registrations made by an assignment by centre only stay behind)
 
 Lan == (1 :> <<0, 0, 2, 2>>) @@ (2 :> <<2, 0, 4, 2>>) @@ (3 :> <<0, 2, 2, 4>>)
 Obs == (11 :> [kind |-> "static",  shape |-> <<"rect", 2, 1>>, t0 |-> 0, poses |-> <<<<3, 2, 0>>>>]) @@         \* centre in 1, shape on 1 and 2
@@ -19,8 +21,10 @@ W0 == [L |-> DOMAIN Lan, lan |-> Lan, O |-> DOMAIN Obs, ob |-> Obs]
 
 VARIABLES present, rel, regS, regD, failed, steps, act,
           moved,     \* obstacles that were moved by Shift (obstacle-level translate_rotate) since they were built
-          gone       \* lanelets removed from the network
-vars == <<present, rel, regS, regD, failed, steps, act, moved, gone>>
+          gone,      \* lanelets removed from the network
+          crel,      \* recorded CENTRE relation per time step (every assignment records it)
+          cmode      \* obstacles whose registrations follow the centre relation (last assigned with use_center_only)
+vars == <<present, rel, regS, regD, failed, steps, act, moved, gone, crel, cmode>>
 Shift == <<4, 0>>                                   \* doubled coordinates: two units to the right
 Movable == {11, 13}
 ShiftOb(o) == [o EXCEPT !.poses = [i \in DOMAIN @ |-> <<@[i][1] + Shift[1], @[i][2] + Shift[2], @[i][3]>>]]
@@ -30,57 +34,79 @@ W == [L |-> DOMAIN Lan \ gone, lan |-> Lan, O |-> DOMAIN Obs, ob |-> [o \in DOMA
 NoRel == [t \in {} |-> {}]
 Init == /\ present = {} /\ rel = [o \in W0.O |-> NoRel] /\ regS = [l \in W0.L |-> {}] /\ regD = [l \in W0.L |-> {}]
         /\ failed = FALSE /\ steps = 0 /\ act = <<"init", 0>> /\ moved = {} /\ gone = {}
+        /\ crel = [o \in W0.O |-> NoRel] /\ cmode = {}
 Horizon(o) == W.ob[o].t0..LastT(W.ob[o])
 Add(o) == /\ o \notin present /\ present' = present \cup {o} /\ rel' = [rel EXCEPT ![o] = NoRel]
+          /\ crel' = [crel EXCEPT ![o] = NoRel] /\ cmode' = cmode \ {o}
           /\ UNCHANGED <<regS, regD, failed, moved, gone>> /\ act' = <<"add", o>>
+At(r, t) == IF r # NoRel /\ t \in DOMAIN r THEN r[t] ELSE {}
+(* lanelets on which the library looks for registrations of o at t before it re-assigns or removes it *)
+Backed(o, t) == At(rel[o], t) \cup (IF DEV_ForgetsCentre THEN {} ELSE At(crel[o], t))
+Unreg(l) == IF DEV_ReassignKeepsOld THEN {} ELSE {o \in present : l \in Backed(o, W.ob[o].t0)}
+UnregD(l) == IF DEV_ReassignKeepsOld THEN {} ELSE {p \in (0..8) \X present : l \in Backed(p[2], p[1])}
 AssignAll ==
     LET shp(o) == [t \in Horizon(o) |-> ExpShape(W, W.ob[o], t)]
+        cen(o) == [t \in Horizon(o) |-> ExpCenter(W, W.ob[o], t)]
         regOf(o) == IF DEV_StaticRegistersCenter /\ W.ob[o].kind = "static" THEN ExpCenter(W, W.ob[o], W.ob[o].t0)
                     ELSE ExpShape(W, W.ob[o], W.ob[o].t0)
     IN /\ present # {}
        /\ rel' = [o \in W.O |-> IF o \in present THEN shp(o) ELSE rel[o]]
+       /\ crel' = [o \in W.O |-> IF o \in present THEN cen(o) ELSE crel[o]] /\ cmode' = cmode \ present
        \* a repeated assignment REPLACES the registrations of the assigned obstacles
        /\ regS' = [l \in W0.L |-> IF l \in gone THEN {} ELSE
-                       (IF DEV_ReassignKeepsOld THEN regS[l] ELSE regS[l] \ present)
-                       \cup {o \in present : W.ob[o].kind = "static" /\ l \in regOf(o)}]
+                       (regS[l] \ Unreg(l)) \cup {o \in present : W.ob[o].kind = "static" /\ l \in regOf(o)}]
        /\ regD' = [l \in W0.L |-> IF l \in gone THEN {} ELSE
-                       (IF DEV_ReassignKeepsOld THEN regD[l] ELSE {p \in regD[l] : p[2] \notin present})
+                       (regD[l] \ UnregD(l))
                        \cup {<<t, o>> \in (0..8) \X present :
                                 W.ob[o].kind = "dynamic" /\ t \in Horizon(o) /\ l \in ExpShape(W, W.ob[o], t)}]
        /\ UNCHANGED <<present, failed, moved, gone>> /\ act' = <<"assign", 0>>
+(* assign_obstacles_to_lanelets(use_center_only=True): only the centre relation is recorded, registrations follow it *)
+AssignCenter ==
+    LET cen(o) == [t \in Horizon(o) |-> ExpCenter(W, W.ob[o], t)]
+    IN /\ present # {}
+       /\ crel' = [o \in W.O |-> IF o \in present THEN cen(o) ELSE crel[o]] /\ cmode' = cmode \cup present
+       /\ regS' = [l \in W0.L |-> IF l \in gone THEN {} ELSE
+                       (regS[l] \ Unreg(l)) \cup {o \in present : W.ob[o].kind = "static" /\ l \in ExpCenter(W, W.ob[o], W.ob[o].t0)}]
+       /\ regD' = [l \in W0.L |-> IF l \in gone THEN {} ELSE
+                       (regD[l] \ UnregD(l))
+                       \cup {<<t, o>> \in (0..8) \X present :
+                                W.ob[o].kind = "dynamic" /\ t \in Horizon(o) /\ l \in ExpCenter(W, W.ob[o], t)}]
+       /\ UNCHANGED <<present, rel, failed, moved, gone>> /\ act' = <<"assign_center", 0>>
 Remove(o) ==
     LET t0 == W.ob[o].t0
-        ls == IF rel[o] = NoRel THEN {} ELSE rel[o][t0]
-        recorded == IF rel[o] = NoRel THEN {} ELSE UNION {rel[o][t] : t \in DOMAIN rel[o]}
+        ls == Backed(o, t0)
+        recorded == UNION {Backed(o, t) : t \in 0..8}
     IN /\ o \in present /\ present' = present \ {o}
        /\ IF W.ob[o].kind = "static"
           THEN /\ failed' = (failed \/ (DEV_RemoveNeedsLanelets /\ ls \cap gone # {}))   \* None.static_obstacles_on_lanelet
                /\ regS' = [l \in W0.L |-> IF l \in ls THEN regS[l] \ {o} ELSE regS[l]] /\ UNCHANGED regD
-          ELSE /\ regD' = [l \in W0.L |-> {p \in regD[l] : p[2] # o \/ (rel[o] # NoRel /\ p[1] \in DOMAIN rel[o] /\ l \notin rel[o][p[1]])}]
+          ELSE /\ regD' = [l \in W0.L |-> {p \in regD[l] : p[2] # o \/ l \notin Backed(o, p[1])}]
                /\ failed' = (failed \/ (DEV_RemoveNeedsLanelets /\ recorded \cap gone # {}))
                /\ UNCHANGED regS
-       /\ rel' = [rel EXCEPT ![o] = NoRel] /\ UNCHANGED <<moved, gone>> /\ act' = <<"remove", o>>
+       /\ rel' = [rel EXCEPT ![o] = NoRel] /\ crel' = [crel EXCEPT ![o] = NoRel] /\ cmode' = cmode \ {o}
+       /\ UNCHANGED <<moved, gone>> /\ act' = <<"remove", o>>
 (* obstacle-level translate_rotate: poses change, recorded relations and registries stay (stale until re-assigned) *)
 Move(o) == /\ o \in present /\ o \in Movable /\ o \notin moved /\ moved' = moved \cup {o}
-           /\ UNCHANGED <<present, rel, regS, regD, failed, gone>> /\ act' = <<"move", o>>
+           /\ UNCHANGED <<present, rel, regS, regD, failed, gone, crel, cmode>> /\ act' = <<"move", o>>
 (* Scenario.remove_lanelet: the lanelet and its registries disappear; obstacles keep the id in their recorded relations *)
 RemoveLanelet(l) == /\ l \notin gone /\ gone' = gone \cup {l}
                     /\ regS' = [regS EXCEPT ![l] = {}] /\ regD' = [regD EXCEPT ![l] = {}]
-                    /\ UNCHANGED <<present, rel, failed, moved>> /\ act' = <<"remove_lanelet", l>>
+                    /\ UNCHANGED <<present, rel, failed, moved, crel, cmode>> /\ act' = <<"remove_lanelet", l>>
 Next == /\ steps < MaxSteps /\ steps' = steps + 1
         /\ \/ \E o \in W.O : Add(o) \/ Remove(o) \/ Move(o)
-           \/ AssignAll
+           \/ AssignAll \/ AssignCenter
            \/ RemoveLanelet(2)
 Spec == Init /\ [][Next]_vars
 
 (* after an assignment the recorded relations are the truth of the CURRENT world (moved obstacles, remaining lanelets) *)
 PropAssignTruth == [][act'[1] = "assign" => \A o \in present' : \A t \in DOMAIN rel'[o] : rel'[o][t] = ExpShape(W', W'.ob[o], t)]_vars
-InvInverseStatic == \A l \in W.L : regS[l] = {o \in present : W.ob[o].kind = "static" /\ rel[o] # NoRel /\ l \in rel[o][W.ob[o].t0]}
-InvInverseDynamic == \A l \in W.L : regD[l] = {<<t, o>> \in (0..8) \X present : W.ob[o].kind = "dynamic" /\ rel[o] # NoRel
-                                                                              /\ t \in DOMAIN rel[o] /\ l \in rel[o][t]}
+(* the relation the registrations of o follow: shape (statement) or, after an assignment by centre only, centre *)
+Guide(o) == IF o \in cmode THEN crel[o] ELSE rel[o]
+InvInverseStatic == \A l \in W.L : regS[l] = {o \in present : W.ob[o].kind = "static" /\ l \in At(Guide(o), W.ob[o].t0)}
+InvInverseDynamic == \A l \in W.L : regD[l] = {<<t, o>> \in (0..8) \X present : W.ob[o].kind = "dynamic" /\ l \in At(Guide(o), t)}
 InvRemoveTotal == ~failed
 InvCentreVsShape == \A o \in W.O : \A t \in Horizon(o) : /\ ExpCenter(W, W.ob[o], t) \subseteq ExpShape(W, W.ob[o], t)
                                                               /\ MustShape(W, W.ob[o], t) \subseteq ExpShape(W, W.ob[o], t)
-StKey == [present |-> present, regS |-> regS, steps |-> steps, assigned |-> {o \in W.O : rel[o] # NoRel}, moved |-> moved, gone |-> gone]
+StKey == [present |-> present, regS |-> regS, steps |-> steps, assigned |-> {o \in W.O : rel[o] # NoRel}, moved |-> moved, gone |-> gone, cmode |-> cmode]
 Emit == PrintT(<<"EDGE", ToJson([from |-> StKey, act |-> act', to |-> StKey'])>>)
 ===================================================================================
